@@ -556,3 +556,31 @@ package mux
 //@   xensures [C16] escapes-only-without-recovery: g.recoverFunc == nil || (exists k int :: 0 <= k && k < len(g.routers) && g.routers[k].recoverFunc == nil)
 //@   inv 1 [C13] bound: -1 <= rangeindex && rangeindex < len(g.routers) && groupOK(g) && allSafe()
 //@   inv 1 [C13] untouched: r.URL.Path == old(r.URL.Path) && noParams(callresult("types.NewContext", 1, 0))
+
+// ---------------------------------------------------------------- mux.go, router.go: URL building (C10)
+
+// the package-level interceptor table used by non-strict URL building is created by init and never changed
+//@ global [C05,C10] empty-interceptors: icOK(emptyInterceptors)
+//
+//@ fn URL
+//@   callsonly [C10] strings.Builder.Grow, syntax.Interceptors.URL, strings.Builder.String
+//@   ensures [C10] verbatim: len(params) == 0 ==> result0 == pattern && result1 == nil
+//@   atcall syntax.Interceptors.URL [C10] delegate: arg0 == emptyInterceptors && arg1.Builder.text == "" && arg2 == pattern && arg3 == params
+//@   ensures [C10] error-propagated: called("syntax.Interceptors.URL", 1) && callresult("syntax.Interceptors.URL", 1, 0) != nil ==> result1 != nil && result0 == ""
+//@   ensures [C10] success: called("syntax.Interceptors.URL", 1) && callresult("syntax.Interceptors.URL", 1, 0) == nil ==> result1 == nil
+//
+// Router.URL: the domain comes first and exactly once; then, by mode, nothing / the strict walk / the pattern verbatim / the substitution
+//@ fn Router.URL
+//@   requires routerOK(r) && allSafe()
+//@   callsonly [C10] strings.Builder.Grow, errwrap.StringBuilder.WString, tree.Tree.URL, syntax.Interceptors.URL, strings.Builder.String
+//@   atcall errwrap.StringBuilder.WString [C10] domain-or-verbatim: (arg1 == r.urlDomain && arg0.Builder.text == "") ||
+//@        (arg1 == pattern && !strict && len(params) == 0 && len(pattern) > 0 && arg0.Builder.text == r.urlDomain)
+//@   atcall tree.Tree.URL [C10] strict: strict && len(pattern) > 0 && arg0 == r.tree && arg1.Builder.text == r.urlDomain && arg2 == pattern && arg3 == params
+//@   atcall syntax.Interceptors.URL [C10] non-strict: !strict && len(pattern) > 0 && len(params) > 0 && arg0 == emptyInterceptors && arg1.Builder.text == r.urlDomain && arg2 == pattern && arg3 == params
+//@   ensures [C10] empty-pattern: len(pattern) == 0 ==> result0 == r.urlDomain && result1 == nil
+//@   ensures [C10] verbatim: !strict && len(params) == 0 ==> result0 == r.urlDomain + pattern && result1 == nil
+//@   ensures [C10] strict-always-walks: strict && len(pattern) > 0 ==> called("tree.Tree.URL", 1)
+//@   ensures [C10] strict-error: called("tree.Tree.URL", 1) && callresult("tree.Tree.URL", 1, 0) != nil ==> result1 != nil && result0 == ""
+//@   ensures [C10] strict-success: called("tree.Tree.URL", 1) && callresult("tree.Tree.URL", 1, 0) == nil ==> result1 == nil
+//@   ensures [C10] error-propagated: called("syntax.Interceptors.URL", 1) && callresult("syntax.Interceptors.URL", 1, 0) != nil ==> result1 != nil && result0 == ""
+//@   ensures [C10] success: called("syntax.Interceptors.URL", 1) && callresult("syntax.Interceptors.URL", 1, 0) == nil ==> result1 == nil
